@@ -1,11 +1,13 @@
 mod c26;
 mod c27;
+mod c28;
 mod common;
 use vkit::{Check, Level};
 fn main() {
     let checks: &[Check] = &[
         Check { id: "C26", level: Level::Exploration, run: c26::run },
         Check { id: "C27", level: Level::Exploration, run: c27::run },
+        Check { id: "C28", level: Level::ModelChecking, run: c28::run },
     ];
     vkit::main(checks);
 }
